@@ -139,7 +139,13 @@ def valid(text):
     try:
         return not run_validator(text, stix_version="2.1")
     except Exception:  # noqa
-        return False
+        # the validator's inspector itself fails on some grammatical input (a negative list index): then the grammar alone decides
+        try:
+            from stix2patterns.v21.pattern import Pattern
+            Pattern(text)
+            return True
+        except Exception:  # noqa
+            return False
 
 
 def equiv(p, q, version="2.1"):
@@ -192,9 +198,75 @@ def irredundant(a):
     return all(irredundant(x) for x in args)
 
 
+def dnf_terms(a):
+    """the alternatives of the disjunctive normal form at observation level (qualified expressions are atoms): repeated distribution of AND / FOLLOWEDBY over OR"""
+    k = a["k"]
+    if k == "paren":
+        return dnf_terms(a["e"])
+    if k in ("obs", "qual"):
+        return [a]
+    if k == "oor":
+        out = []
+        for x in a["args"]:
+            out += dnf_terms(x)
+        return out
+    combos = [[]]
+    for x in a["args"]:
+        combos = [c + [t] for c in combos for t in dnf_terms(x)]
+        if len(combos) > 16:
+            raise OverflowError()
+    return [{"k": k, "args": [wrap(copy.deepcopy(t)) if t["k"] in COMPOUND else copy.deepcopy(t) for t in c]} for c in combos]
+
+
+def full_dnf(a):
+    try:
+        terms = dnf_terms(a)
+    except OverflowError:
+        return None
+    if len(terms) < 2:
+        return None
+    return {"k": "oor", "args": [{"k": "paren", "e": t} if t["k"] in COMPOUND else t for t in terms]}
+
+
+def depth_of_alternation(a, inside=None):
+    """how many times AND/FOLLOWEDBY and OR alternate along some path (three or more: a distribution creates a node that has to be distributed again)"""
+    k = a["k"]
+    if k in ("paren", "qual"):
+        return depth_of_alternation(a["e"], inside) if k == "paren" else 0
+    if k == "obs":
+        return 0
+    kind = "or" if k == "oor" else "and"
+    sub = max([depth_of_alternation(x, kind) for x in a["args"]] or [0])
+    return sub + (1 if kind != inside else 0)
+
+
+def alternating(rng, depth, kind, pool):
+    """AND / FOLLOWEDBY and OR alternating `depth` times, every leaf a different observation (nothing to simplify except by distributing)"""
+    if depth == 0 or not pool:
+        return pool.pop() if pool else None
+    n = rng.choice([2, 2, 3])
+    args = []
+    deep = rng.randrange(n)
+    for i in range(n):
+        x = alternating(rng, depth - 1, "or" if kind == "and" else "and", pool) if i == deep else (pool.pop() if pool else None)
+        if x is not None:
+            args.append(x if x["k"] == "obs" else {"k": "paren", "e": x})
+    if len(args) < 2:
+        return args[0] if args else None
+    return {"k": "oor" if kind == "or" else rng.choice(["oand", "fb"]), "args": args}
+
+
 def generate(chk, quick):
     rng = chk.rng
     lines = []
+    for i in range(16 if quick else 400):
+        pool = [{"k": "obs", "e": IP.cmp_(prop, "=", IP.I(v))} for prop in "bc" for v in (0, 1, 2, 3)]
+        rng.shuffle(pool)
+        p = alternating(rng, rng.choice([2, 3, 3, 4]), rng.choice(["and", "and", "or"]), pool)
+        fd = full_dnf(p) if p is not None and p["k"] != "obs" else None
+        if fd is not None and valid(IP.render(p)) and valid(IP.render(fd)):
+            lines.append(pair_line(p, fd, "equiv", "full_distribution(alternation depth %d)" % min(depth_of_alternation(p), 4)))
+            lines.append(pair_line(fd, p, "equiv", "full_distribution(alternation depth %d)(reversed arguments)" % min(depth_of_alternation(p), 4)))
     n = 320 if quick else 12000
     batch = []
     for i in range(n):
@@ -237,6 +309,11 @@ def generate(chk, quick):
             lines.append(pair_line(p, rw[1], exp, rw[0] if step == 0 else "composition:" + rw[0]))
             lines.append(pair_line(rw[1], p, exp, (rw[0] if step == 0 else "composition:" + rw[0]) + "(reversed arguments)"))
             cur = rw[1]
+        # the whole normal form at once: distribution applied until nothing is left to distribute (only for patterns with nothing else to simplify)
+        if irredundant(p):
+            fd = full_dnf(p)
+            if fd is not None and valid(IP.render(fd)):
+                lines.append(pair_line(p, fd, "equiv", "full_distribution(alternation depth %d)" % min(depth_of_alternation(p), 4)))
         nr = near(rng, p)
         if nr is not None:
             lines.append(pair_line(p, nr[1], "none", nr[0]))
@@ -291,6 +368,49 @@ def denoted(c):
     raise ValueError(t)
 
 
+def special_canon(typ, steps):
+    """the documented meaning of a string constant on a special path: an IPv4 / IPv6 address or CIDR block denotes its network (low-order bits zeroed, /32 resp. /128 the
+    same as the bare address); a registry key or value name is case-insensitive.  Returns a function text -> value key (None: not judged)."""
+    import ipaddress
+    import re
+    if typ == "ipv4-addr":
+        def f(t):
+            if not re.fullmatch(r"\d{1,3}(\.\d{1,3}){3}(/\d{1,2})?", t):
+                return None
+            try:
+                return ("net4", str(ipaddress.ip_network(t, strict=False)))
+            except ValueError:
+                return None
+        return f
+    if typ == "ipv6-addr":
+        def g(t):
+            try:
+                return ("net6", str(ipaddress.ip_network(t, strict=False)))
+            except ValueError:
+                return None
+        return g
+    return lambda t: ("str", t.lower())
+
+
+def cidr_pairs(rng, family, n):
+    """pairs of blocks with one prefix length: the same network with other host bits, and two networks differing in the last bit the prefix keeps"""
+    import ipaddress
+    bits = 32 if family == 4 else 128
+    cls = ipaddress.IPv4Address if family == 4 else ipaddress.IPv6Address
+    out = []
+    for _ in range(n):
+        plen = rng.choice([rng.randint(1, bits - 1), rng.choice([1, 7, 9, 15, 17, 21, 22, 23, 25, 30, 31] if family == 4 else [1, 7, 63, 65, 113, 118, 119, 121, 127])])
+        base = rng.getrandbits(bits)
+        keep = base >> (bits - plen) << (bits - plen)
+        host = rng.getrandbits(bits - plen)
+        same = keep | host
+        other = keep ^ (1 << (bits - plen))          # flips the last network bit
+        mk = lambda v: {"t": "str", "u": IP.units("%s/%d" % (cls(v), plen))}  # noqa
+        out.append((mk(keep | (host ^ 1 if host else 1) if bits - plen else keep), mk(same)))
+        out.append((mk(same), mk(other | host)))
+    return out
+
+
 def abstract_pair(p, q):
     """rename paths and constants of two patterns into the vocabulary of spec/PatternSem.tla, jointly and injectively.  Sound for patterns that use only =, != and IN on one object
     type: such comparisons depend only on which constants are the same value, and every abstract observation has a real counterpart.  Returns (p', q') or None."""
@@ -305,8 +425,7 @@ def abstract_pair(p, q):
             types.add(a["type"])
             pk = json.dumps(a["path"])
             items = a["const"]["items"] if a["const"]["t"] == "list" else [a["const"]]
-            if (a["type"], pk) in special and any(i["t"] == "str" for i in items):
-                raise KeyError("documented canonicalisation applies")
+            canon = special_canon(a["type"], a["path"]) if (a["type"], pk) in special else None
             if pk not in paths:
                 if len(paths) == 2:
                     raise KeyError("paths")
@@ -314,6 +433,10 @@ def abstract_pair(p, q):
             out = []
             for i in items:
                 d = denoted(i)
+                if canon is not None and i["t"] == "str":
+                    d = canon("".join(map(chr, i["u"])))          # what the string denotes under the canonicalisation the library documents for this path
+                    if d is None:
+                        raise KeyError("string outside the documented canonicalisation")
                 if d not in consts:
                     if len(consts) == 4:
                         raise KeyError("constants")
@@ -346,11 +469,14 @@ def constant_kind_lines(chk, quick):
             other = [c for k2, pl in sorted(CONST_POOLS.items()) if k2 != kind for c in pl]
             pairs += [(rng.choice(pool), rng.choice(other)) for _ in range(2)]
             rng.shuffle(pairs)
+            if kind == "str" and typ in ("ipv4-addr", "ipv6-addr"):
+                pairs = cidr_pairs(rng, 4 if typ == "ipv4-addr" else 6, 4 if quick else 60) + pairs
             # constants whose text looks alike, or looks like what the special paths canonicalise (an address, a key in another case), come first
             text = lambda c: "".join(map(chr, c["u"])) if c["t"] == "str" else str(c.get("s", c.get("v", c.get("us"))))  # noqa
             alike = lambda a, b: text(a).lower() == text(b).lower() or text(a).isdigit() or text(b).isdigit()  # noqa
-            pairs.sort(key=lambda ab: not alike(*ab))
-            for c1, c2 in pairs[:6 if quick else 40]:
+            ncidr = len([1 for ab in pairs if kind == "str" and typ in ("ipv4-addr", "ipv6-addr") and "/" in text(ab[0])])
+            pairs.sort(key=lambda ab: not (alike(*ab) or ("/" in text(ab[0]) and kind == "str")))
+            for c1, c2 in pairs[:(6 if quick else 40) + ncidr]:
                 op = rng.choice(["=", "=", "!=", "IN"])
                 mk = lambda c: {"k": "cmp", "type": typ, "path": copy.deepcopy(steps), "prop": "*", "op": op, "neg": False,  # noqa
                                 "const": {"t": "list", "items": [c, rng.choice(pool)]} if op == "IN" else c}
